@@ -150,9 +150,32 @@ func campaignC18(p *Parser, req *Request, resp *Response) {
 			hh.Write([]byte{byte(x), byte(x >> 8), byte(x >> 16)})
 		}
 		resp.Hashes = append(resp.Hashes, fmt.Sprintf("%x", hh.Sum64()))
+		// how many calls were inside Parse at the same time (entry/exit events)
+		inFlight, maxInFlight := 0, 0
+		for _, x := range tr {
+			switch int(x & 0xff) {
+			case simrt.YEntry:
+				inFlight++
+				if inFlight > maxInFlight {
+					maxInFlight = inFlight
+				}
+			case simrt.YExit:
+				inFlight--
+			}
+		}
+		resp.statMax("max_calls_in_flight", maxInFlight)
 		for k, v := range poolStats {
 			resp.stat("pool_"+k, v)
 		}
+	}
+	if dead {
+		record()
+		// a client that never finished never released its join edge: its results
+		// must not be read (the race build would, rightly, call that a race of the
+		// harness)
+		resp.Violations = append(resp.Violations, Violation{Class: "deadlock", Msg: "the clients blocked each other: no client could run although not all were done", Choices: concChoices,
+			Attrs: map[string]string{"class": "deadlock", "clients": fmt.Sprint(len(clients)), "optimized": fmt.Sprint(!p.Has["Memoize"]), "strategy": fmt.Sprint(sc.Strategy)}})
+		return
 	}
 	// 3. every call alone, on fresh pools, no scheduler. The calls are run
 	// alone only after the concurrent run, so that the concurrent run meets the
@@ -193,10 +216,6 @@ func campaignC18(p *Parser, req *Request, resp *Response) {
 		resp.Violations = append(resp.Violations, Violation{Class: class, Msg: msg, Detail: detail, Choices: concChoices,
 			Attrs: map[string]string{"class": class, "clients": fmt.Sprint(len(clients)), "optimized": fmt.Sprint(!p.Has["Memoize"]), "strategy": fmt.Sprint(sc.Strategy)}})
 	}
-	if dead {
-		add("deadlock", "the clients blocked each other: no client could run although not all were done", nil)
-		return
-	}
 	if h0 != h1 {
 		// Not a violation by itself: a correctly synchronised, lazily filled cache
 		// inside the grammar would also change the hash. What the property forbids
@@ -215,6 +234,10 @@ func campaignC18(p *Parser, req *Request, resp *Response) {
 			if r.Aborted || r.Overflow {
 				add("not-bounded", fmt.Sprintf("client %d call %d did not return within the step cap under this schedule although it does alone", i, j), nil)
 				continue
+			}
+			if r.OptsModified {
+				add("caller-options-modified", fmt.Sprintf("client %d call %d: Parse wrote into the spare capacity of the option slice it was given; two goroutines whose option lists share one array (common := make([]Option, 0, 8); strict := append(common, x); one goroutine parses with common..., the other with strict...) then race on it and lose options", i, j), nil)
+				break
 			}
 			got, want := resultDigest(r), resultDigest(solo[i][j])
 			if ok, at := sameStrings(got, want); !ok {
